@@ -11,7 +11,7 @@ from __future__ import annotations
 
 import ast
 from fractions import Fraction
-from typing import Dict, List, Optional
+from typing import Dict, List, Optional, Tuple
 
 from ..cfg import enumerate_paths, RETURN
 from ..domains.affine import Affine, AffineEval, Scalar
@@ -90,6 +90,8 @@ def run(idx: ProgramIndex, rep: Report, tier: str):
                         ae.env[st.targets[0].id] = v
                 elif isinstance(st, ast.Return):
                     ret = st.value
+                    if isinstance(ret, ast.Name) and ret.id in aliases and aliases[ret.id][0] == "expr" and isinstance(aliases[ret.id][1], ast.Call):
+                        ret = aliases[ret.id][1]  # `new = self.__class__(...); ...; return new`
             cond = " and ".join("%s=%s" % (src(s.node)[:40], s.truth) for s in p.steps if s.kind == "assume")
             out.append((ret, ae, cond))
         return out
@@ -221,3 +223,122 @@ def run(idx: ProgramIndex, rep: Report, tier: str):
 
     from .common_alias import aliasing_obligations
     aliasing_obligations(idx, rep, "C10-4", list(M.methods.values()), 15, "MultivariateNormal methods interpreted")
+    carried_factor(idx, rep, M)
+
+
+# ---- C10-5: a Cholesky factor carried over into a new distribution ------------------------------------------------------
+FACTOR_ATTRS = ("__unbroadcasted_scale_tril", "_unbroadcasted_scale_tril", "scale_tril")
+COV_ATTRS = ("_covar", "covariance_matrix", "lazy_covariance_matrix")
+SHAPE_ONLY = ("expand", "unsqueeze", "squeeze", "view", "reshape", "contiguous", "clone", "to", "type_as", "detach")
+
+
+def _strip(e: ast.AST, env: Dict[str, ast.AST], sn: str, depth: int = 0):
+    """-> (base attribute of self or None, [operation names applied], [multipliers])"""
+    ops: List[str] = []
+    muls: List[ast.AST] = []
+    while depth < 20:
+        depth += 1
+        if isinstance(e, ast.Name) and e.id in env:
+            e = env[e.id]
+        elif isinstance(e, ast.Call) and isinstance(e.func, ast.Attribute) and e.func.attr in SHAPE_ONLY:
+            if e.func.attr in ("expand", "unsqueeze", "squeeze", "view", "reshape"):
+                ops.append(e.func.attr)
+            e = e.func.value
+        elif isinstance(e, ast.Call) and isinstance(e.func, ast.Attribute) and e.func.attr in ("mul", "mul_", "div", "div_") and len(e.args) == 1:
+            muls.append(e.args[0])
+            ops.append("scale")
+            e = e.func.value
+        elif isinstance(e, ast.BinOp) and isinstance(e.op, (ast.Mult, ast.Div)):
+            # the side that is not (derived from) self carries the scalar
+            l_self = any(isinstance(x, ast.Name) and x.id == sn for x in ast.walk(e.left))
+            muls.append(e.right if l_self else e.left)
+            ops.append("scale")
+            e = e.left if l_self else e.right
+        elif isinstance(e, ast.Subscript):
+            ops.append("index")
+            e = e.value
+        else:
+            break
+    if isinstance(e, ast.Attribute) and isinstance(e.value, ast.Name) and e.value.id == sn:
+        return e.attr, list(reversed(ops)), muls
+    return None, list(reversed(ops)), muls
+
+
+def _nonnegative(e: ast.AST) -> bool:
+    if isinstance(e, ast.Constant) and isinstance(e.value, (int, float)) and e.value >= 0:
+        return True
+    if isinstance(e, ast.Call):
+        fn = (chain(e.func) or "").split(".")[-1]
+        if fn in ("abs", "sqrt", "exp", "softplus") or (isinstance(e.func, ast.Attribute) and e.func.attr in ("abs", "sqrt", "exp")):
+            return True
+    if isinstance(e, ast.BinOp) and isinstance(e.op, ast.Pow) and isinstance(e.right, ast.Constant) and isinstance(e.right.value, int) and e.right.value % 2 == 0:
+        return True
+    return False
+
+
+def carried_factor(idx: ProgramIndex, rep: Report, M):
+    """`new.__unbroadcasted_scale_tril = E` / `scale_tril=E`: the factor handed to the new distribution must be the factor of the
+    new covariance.  Decidable cases: E is self's factor under the same shape-only operations as the covariance (expand, unsqueeze);
+    a scaled factor L*c is a Cholesky factor of c^2 C only for c >= 0, so the multiplier must be syntactically non-negative."""
+    rep.rule("C10-5", "a Cholesky factor carried into a new distribution is transformed like the covariance (same shape-only operations; scaling only by a non-negative factor)")
+    n = 0
+    classes = [M] + [c for c in idx.subclasses(M, strict=True)]
+    for cls in classes:
+        for fi in cls.methods.values():
+            if not fi.params or fi.kind in ("staticmethod",):
+                continue
+            sn = fi.params[0]
+            for p in enumerate_paths(body_without_docstring(fi.node)):
+                env: Dict[str, ast.AST] = {}
+                carries: List[Tuple[str, ast.AST, int, str]] = []
+                covs: Dict[str, ast.AST] = {}
+                for s_ in p.steps:
+                    if s_.kind != "stmt":
+                        continue
+                    st = s_.node
+                    if isinstance(st, ast.Assign) and len(st.targets) == 1:
+                        t = st.targets[0]
+                        if isinstance(t, ast.Name):
+                            env[t.id] = st.value
+                            if isinstance(st.value, ast.Call) and src(st.value.func) in ("%s.__class__" % sn, "MultivariateNormal", "type(%s)" % sn, cls.name):
+                                cv = _ctor_args(st.value)[1]
+                                if cv is not None:
+                                    covs[t.id] = cv
+                        elif isinstance(t, ast.Attribute) and isinstance(t.value, ast.Name) and t.value.id != sn:
+                            if t.attr in FACTOR_ATTRS:
+                                carries.append((t.value.id, st.value, st.lineno, "attribute store"))
+                            elif t.attr in COV_ATTRS:
+                                covs[t.value.id] = st.value
+                    for c in (x for x in ast.walk(st) if isinstance(x, ast.Call)):
+                        for k in c.keywords:
+                            if k.arg == "scale_tril":
+                                # super(MultivariateNormal, new).__init__(loc=.., scale_tril=..): the object is the 2nd argument of super()
+                                obj = None
+                                if isinstance(c.func, ast.Attribute) and isinstance(c.func.value, ast.Call) and chain(c.func.value.func) == "super" and len(c.func.value.args) == 2 and isinstance(c.func.value.args[1], ast.Name):
+                                    obj = c.func.value.args[1].id
+                                carries.append((obj or "?", k.value, c.lineno, "scale_tril="))
+                for obj, e, line, how in carries:
+                    base, ops, muls = _strip(e, env, sn)
+                    inst = "%s:%s.%s[factor of %s by %s @%s]" % (cls.module.name, cls.qualname, fi.name, obj, how, "/".join(ops) or "as is")
+                    if any(o.instance == inst for o in rep.obligations if o.rule == "C10-5"):
+                        continue
+                    where = "%s:%d" % (fi.module.relpath, line)
+                    if base is None or base not in FACTOR_ATTRS:
+                        rep.observe("C10-5", inst, where, "factor `%s` is not derived from self's factor (computed afresh): nothing carried" % src(e)[:50])
+                        continue
+                    n += 1
+                    probs = []
+                    bad_mul = [m for m in muls if not _nonnegative(m)]
+                    if bad_mul:
+                        probs.append("the carried factor is scaled by `%s`, which may be negative: L*c is a Cholesky factor of c^2 C only for c >= 0 (the Cholesky path of log_prob / rsample then uses a factor with negative diagonal)" % src(bad_mul[0])[:30])
+                    cov = covs.get(obj)
+                    if cov is not None:
+                        cbase, cops, cmuls = _strip(cov, env, sn)
+                        if cbase in COV_ATTRS and [o for o in cops if o != "scale"] != [o for o in ops if o != "scale"]:
+                            probs.append("the factor is transformed by %s but the covariance by %s" % (ops or ["nothing"], cops or ["nothing"]))
+                        if cbase in COV_ATTRS and ("scale" in cops) != ("scale" in ops):
+                            probs.append("covariance and carried factor are not scaled alike")
+                        if cbase is None and not ops:
+                            probs.append("the covariance of the new distribution is recomputed (`%s`) while the factor is carried over unchanged" % src(cov)[:40])
+                    rep.add("C10-5", inst, where, not probs, "factor and covariance undergo the same shape-only operations %s" % ops if not probs else "; ".join(probs), {"ops": ops})
+    rep.floor("C10-5", "carried Cholesky factors", n, 4)
